@@ -88,6 +88,31 @@ def flattenCmds {α κ : Type} (f : Pt α → κ → Pt α → List (Pt α)) : P
   | cur, .Curve k p :: rest => (f cur k p).map Cmd.L ++ Cmd.L p :: flattenCmds f p rest
   | _, c :: rest => c :: flattenCmds f c.endp rest
 
+/-- `replace` with the splice made explicit (path.go:1462-1470). The callback returns the points of
+the replacement path; the LAST one is where the replacement itself ends, which for elliptic arcs is the
+recomputed `EllipsePos(theta1)` and may differ from the stored end point `p` by rounding.
+* bridging: `p.LineTo(end)` appends `p` unless LineTo's own test `skip last p` (`start.Equals(end)`)
+  makes it a no-op;
+* `Join(r)` with `r = M end, rest…` continues the current subpath iff `eq pos end` (Join's
+  `Equal`/`Equal` test on the coordinates), otherwise `r` is appended as a NEW subpath `M end`. -/
+def replaceCmds {α κ : Type} (skip eq : Pt α → Pt α → Bool) (f : Pt α → κ → Pt α → List (Pt α)) :
+    Pt α → List (Cmd α κ) → List (Cmd α κ)
+  | _, [] => []
+  | cur, .Curve k p :: rest =>
+    let vs := f cur k p
+    let last := vs.getLast?.getD cur
+    let bridged := if skip last p then vs else vs ++ [p]
+    let pos := bridged.getLast?.getD cur
+    bridged.map Cmd.L ++ ((if eq pos p then [] else [Cmd.M p]) ++ replaceCmds skip eq f (if eq pos p then pos else p) rest)
+  | _, c :: rest => c :: replaceCmds skip eq f c.endp rest
+
+def Cmd.isMove {α κ : Type} : Cmd α κ → Bool
+  | .M _ => true
+  | _ => false
+
+/-- number of subpaths = number of MoveTo commands -/
+def subpathCount {α κ : Type} (cs : List (Cmd α κ)) : Nat := cs.countP Cmd.isMove
+
 /-- Structural signature of a command list: for every subpath its start point, end point and
 whether it is closed. The first argument of `sigGo` is the subpath being read. -/
 structure SubSig (α : Type) where
